@@ -86,6 +86,14 @@ func (c *FnCtx) callCommon(call *ssa.CallCommon, v ssa.Value, pos token.Pos) []s
 	if callee != nil {
 		key = c.eng.funcKey(callee)
 		con = c.eng.contractFor(callee)
+		// a contract specialised for this call site takes precedence
+		if pk := c.eng.fnPkg(callee); pk != nil {
+			self := c.eng.funcKey(c.fn)
+			if sc := c.eng.specs.Contracts[pk.Pkg.Path()+"::"+key+"@"+self]; sc != nil {
+				con = sc
+				key = key + "@" + self
+			}
+		}
 	} else if call.IsInvoke() {
 		key = "iface:" + typeKey(call.Value.Type()) + "." + call.Method.Name()
 		con = c.eng.specs.Contracts[types.TypeString(types.Unalias(call.Value.Type()), nil)+"."+call.Method.Name()]
@@ -197,11 +205,13 @@ func (c *FnCtx) isLocalHeap(h string) bool {
 // applyContract: assert requires, havoc modifies, assume ensures.
 func (c *FnCtx) applyContract(con *Contract, callee *ssa.Function, args []string, argTypes []types.Type, sig *types.Signature, pos token.Pos, mkResults func(string) []string, validateResults func([]string)) []string {
 	env := &specEnv{c: c, vars: map[string]sv{}, pkg: c.eng.pkgOfContract(con, c.fn)}
-	if len(con.Params) != len(args) {
+	if len(con.Params) != len(args) && !con.Flags["pure-decl"] {
 		unsupp("contract %s: %d parameters, call has %d arguments", con.Key, len(con.Params), len(args))
 	}
 	for i, n := range con.Params {
-		env.vars[n] = sv{args[i], argTypes[i]}
+		if i < len(args) {
+			env.vars[n] = sv{args[i], argTypes[i]}
+		}
 	}
 	// parameters typed by the callee's signature where available (argument types can be more
 	// specific only for interfaces, which are boxed already)
@@ -576,10 +586,7 @@ func (c *FnCtx) builtinCopy(call *ssa.CallCommon, v ssa.Value, pos token.Pos) []
 // ---------- contracts of the function under verification ----------
 
 func (c *FnCtx) conEnv() *specEnv {
-	env := &specEnv{c: c, vars: map[string]sv{}, pkg: c.fn.Pkg.Pkg}
-	if c.fn.Pkg == nil && c.fn.Parent() != nil {
-		env.pkg = c.fn.Parent().Pkg.Pkg
-	}
+	env := &specEnv{c: c, vars: map[string]sv{}, pkg: c.pkgTypes()}
 	// parameters by contract name (positional), else by SSA name
 	for i, p := range c.fn.Params {
 		name := p.Name()
@@ -597,12 +604,8 @@ func (c *FnCtx) conEnv() *specEnv {
 }
 
 func (c *FnCtx) pkgTypes() *types.Package {
-	f := c.fn
-	for f.Pkg == nil && f.Parent() != nil {
-		f = f.Parent()
-	}
-	if f.Pkg != nil {
-		return f.Pkg.Pkg
+	if pk := c.eng.fnPkg(c.fn); pk != nil {
+		return pk.Pkg
 	}
 	return nil
 }
@@ -773,6 +776,8 @@ func (c *FnCtx) resolverAtEntry() func(string) (sv, bool) {
 
 func (c *FnCtx) instrReturn(x *ssa.Return) {
 	c.retCount++
+	// vacuity guard: this return must be reachable under everything assumed so far
+	c.covers = append(c.covers, &Oblig{Name: fmt.Sprintf("%s/cover/return@%s#%d", c.key, c.posStr(x.Pos()), c.retCount), Kind: "cover", Goal: c.guard(), Prefix: len(c.ctx), Fn: c.key, Cover: true, ctx: c, PosStr: c.posStr(x.Pos())})
 	c.checkTypeInvsAtReturn(x)
 	if c.con == nil {
 		return
@@ -820,6 +825,25 @@ func (c *FnCtx) valueAt(name string, b *ssa.BasicBlock, phiSubst map[*ssa.Phi]st
 			break
 		}
 		if phi.Comment == name {
+			if phiSubst != nil {
+				if t, ok := phiSubst[phi]; ok {
+					return sv{t, phi.Type()}, true
+				}
+			}
+			return sv{c.vals[phi], phi.Type()}, true
+		}
+	}
+	// a phi of this block named through a debug reference (range-over-int loops)
+	for _, in := range b.Instrs {
+		dr, ok := in.(*ssa.DebugRef)
+		if !ok || dr.IsAddr {
+			continue
+		}
+		obj := dr.Object()
+		if obj == nil || obj.Name() != name {
+			continue
+		}
+		if phi, ok := dr.X.(*ssa.Phi); ok && phi.Block() == b {
 			if phiSubst != nil {
 				if t, ok := phiSubst[phi]; ok {
 					return sv{t, phi.Type()}, true
@@ -892,6 +916,27 @@ func (c *FnCtx) invEnv(li *loopInfo, phiSubst map[*ssa.Phi]string, heap heapStat
 	return env
 }
 
+// evalCandidate evaluates a Houdini candidate in the heap state env.heap.
+func (c *FnCtx) evalCandidate(cand *candidate, env *specEnv) (string, error) {
+	if cand.frame == "" {
+		return env.evalBool(cand.e)
+	}
+	h := cand.frame
+	cur, ok := env.heap[h]
+	if !ok {
+		cur = c.entry[h]
+	}
+	if cur == "" || c.entry[h] == "" {
+		return "", fmt.Errorf("no heap %s", h)
+	}
+	if cur == c.entry[h] {
+		return "true", nil
+	}
+	c.nfresh++
+	r := fmt.Sprintf("r!q%d", c.nfresh)
+	return forall([][2]string{{r, "Int"}}, implies(and(le("0", r), le(r, c.entry["ALLOC"])), eq(sel(cur, r), sel(c.entry[h], r))), sel(cur, r)), nil
+}
+
 func (c *FnCtx) loopClauses(li *loopInfo) []*Clause {
 	var out []*Clause
 	if c.con != nil {
@@ -920,7 +965,7 @@ func (c *FnCtx) assumeInvariants(li *loopInfo) {
 			continue
 		}
 		env.heap = c.cur
-		t, err := env.evalBool(cand.e)
+		t, err := c.evalCandidate(cand, env)
 		if err != nil {
 			cand.alive = false
 			continue
@@ -967,7 +1012,7 @@ func (c *FnCtx) checkInvariants(li *loopInfo, pred *ssa.BasicBlock) {
 			continue
 		}
 		env.heap = c.cur
-		t, err := env.evalBool(cand.e)
+		t, err := c.evalCandidate(cand, env)
 		if err != nil {
 			cand.alive = false
 			continue
